@@ -703,6 +703,17 @@ class Object(base.Symbolic, metaclass=ObjectMeta):
             f'{self.__class__.__name__}.__init__() missing {len(missing_args)} '
             f'required {arg_phrase}: {keys_str}.')
 
+    # The same symbolic node passed for two fields: the later field gets a copy
+    # (the attribute container has no parent yet, so the write primitive cannot
+    # tell that the node is already in use).
+    seen_nodes = set()
+    for k, v in field_args.items():
+      if isinstance(v, base.Symbolic):
+        if id(v) in seen_nodes:
+          field_args[k] = v.clone()
+        else:
+          seen_nodes.add(id(v))
+
     self._set_raw_attr(
         '_sym_attributes',
         pg_dict.Dict(
